@@ -90,12 +90,49 @@ def line_of(src, off):
 _cache = {}
 
 
+GUARD = 'BLUETOE_VERIF'
+
+
+def strip_guarded(src):
+    """The verified text is the production code, i.e. the guard-OFF view: blank the lines between
+    '#if defined BLUETOE_VERIF' / '#ifdef BLUETOE_VERIF' and the matching '#else' or '#endif' (hook code) and the
+    directive lines themselves; keep the '#else' branch.  Line numbers are preserved."""
+    out = []
+    state = None   # None | 'hook' | 'else'
+    depth = 0
+    for ln in src.split('\n'):
+        st = ln.strip()
+        if state is None:
+            if re.match(r'#\s*(ifdef\s+%s\b|if\s+defined\s*\(?\s*%s\b)' % (GUARD, GUARD), st):
+                state, depth = 'hook', 0
+                out.append('')
+                continue
+            out.append(ln)
+            continue
+        if re.match(r'#\s*if', st):
+            depth += 1
+        elif re.match(r'#\s*endif', st):
+            if depth == 0:
+                state = None
+                out.append('')
+                continue
+            depth -= 1
+        elif re.match(r'#\s*else', st) and depth == 0:
+            state = 'else'
+            out.append('')
+            continue
+        out.append('' if state == 'hook' else ln)
+    if state is not None:
+        raise ExtractionError("unterminated #if %s block" % GUARD)
+    return '\n'.join(out)
+
+
 def load(file):
     path = os.path.join(REPO, file)
     if path not in _cache:
         with open(path, encoding='utf-8', errors='replace') as f:
             raw = f.read()
-        _cache[path] = (raw, strip_comments(raw))
+        _cache[path] = (raw, strip_comments(strip_guarded(raw)))
     return _cache[path]
 
 
@@ -419,6 +456,40 @@ def _depth(body, off):
         elif ch == '}':
             d -= 1
     return d
+
+
+def extract_enum(spec):
+    """enum [class] NAME [: type] { a = 1, b, ... }  ->  enum NAME { NAME_a = 1, NAME_b, ... }
+    (scoped enumerators get the enum's name as prefix; uses in bodies are rewritten by the unit rule
+    'NAME::x -> NAME_x').  spec: file, scope (optional), name"""
+    what = spec.get('id', spec['name'])
+    raw, txt = load(spec['file'])
+    lo, hi = scope_range(txt, spec.get('scope'), what)
+    s, e = find_once(r'\benum\s+(?:class\s+)?' + re.escape(spec['name']) + r'\b[^{;]*\{', txt, what, lo, hi)
+    c = match_close(txt, e - 1, '{', '}')
+    inner = txt[e:c]
+    items = [it.strip() for it in split_top(inner, ',') if it.strip()]
+    out = []
+    fired = {}
+    for it in items:
+        m = re.match(r'^(\w+)\s*(?:=\s*(.+))?$', it, re.S)
+        if not m:
+            raise ExtractionError("%s: cannot parse enumerator %r" % (what, it))
+        val = m.group(2)
+        if val is not None:
+            val = generic_rewrite(val.strip(), fired, no_members=True)
+            # references to earlier enumerators of the same enum
+            names = [x.split(' ')[0] for x in out]
+            val = re.sub(r'\b(\w+)\b', lambda mm: spec['name'] + '_' + mm.group(1) if (spec['name'] + '_' + mm.group(1)) in names else mm.group(1), val)
+            out.append("%s_%s = %s" % (spec['name'], m.group(1), val))
+        else:
+            out.append("%s_%s" % (spec['name'], m.group(1)))
+    text = "enum %s { %s }" % (spec['name'], ', '.join(out))
+    for pat, msg in LEFTOVER:
+        if re.search(pat, text):
+            raise ExtractionError("%s: %s in enum" % (what, msg))
+    return dict(text=text, report=dict(id=what, file=spec['file'], lines=[line_of(txt, s), line_of(txt, c)],
+                                       sha256=hashlib.sha256(txt[s:c].encode()).hexdigest(), rules_fired=fired))
 
 
 def extract_constant(spec):
